@@ -1062,7 +1062,36 @@ def suite_handler(ctx, exe, n):
 REAL_ENCS = ["gzip", "deflate", "deflate-raw", "br", "zstd"]
 
 
+def exact_budget_members(rng, limit):
+    """Decoded member sizes whose running sums hit the decompression budget (= read-buffer limit) exactly at
+    member boundaries: _decompress_members then stops with the remaining members parked in
+    _pending_unused_data, and only data_available tells the payload parser to come back for them."""
+    sizes = []
+    for _ in range(rng.randint(2, 4)):
+        a = rng.randint(1, limit - 1) if limit > 1 else 1
+        sizes += [a, limit - a] if limit > 1 else [1]
+    if rng.random() < 0.5:
+        sizes.append(rng.randint(1, 3 * limit))
+    return [bytes([rng.randrange(256)]) * n for n in sizes if n > 0]
+
+
+def gen_exact_case(rng):
+    e = rng.choice(["zstd", "zstd", "gzip", "deflate", "deflate-raw"])
+    enc, raw = ("deflate", True) if e == "deflate-raw" else (e, False)
+    framing = rng.choice(["C", "L", "E"])
+    limit = rng.choice([2, 16, 64, 256, 1024, 4096])
+    plains = exact_budget_members(rng, limit)
+    body = b"".join(real_encode(enc, p, rng, raw) for p in plains)
+    wire = chunked_frame(rng, body, True) if framing == "C" else body
+    cfg = {"limit": limit, "enc": enc, "framing": framing, "length": len(body), "maxline": 8190, "maxfield": 8190, "maxheaders": 128, "flow": 1}
+    segs = [wire] if rng.random() < 0.6 else segments(rng, wire)
+    return {"cfg": cfg, "body": body.hex(), "tag": "intact+exact-budget", "wire_state": "ok", "segs": [x.hex() for x in segs],
+            "codec": e}, safe_ref(real_ref_decode, enc, body)
+
+
 def gen_real_case(rng):
+    if rng.random() < 0.2:
+        return gen_exact_case(rng)
     e = rng.choice(REAL_ENCS)
     enc, raw = ("deflate", True) if e == "deflate-raw" else (e, False)
     framing = rng.choice(["C", "L", "E"])
@@ -1134,8 +1163,13 @@ def suite_laws(ctx, n):
         e = rng.choice(REAL_ENCS)
         enc, raw = ("deflate", True) if e == "deflate-raw" else (e, False)
         nmem = rng.choice([1, 1, 2, 4]) if enc != "br" else 1
-        body = b"".join(real_encode(enc, gen_plain(rng), rng, raw) for _ in range(nmem))
-        body, tag = corrupt(rng, body)
+        exact = enc != "br" and rng.random() < 0.3
+        if exact:
+            lim = rng.choice([2, 16, 100, 4096])
+            body, tag = b"".join(real_encode(enc, p, rng, raw) for p in exact_budget_members(rng, lim)), "intact"
+        else:
+            body = b"".join(real_encode(enc, gen_plain(rng), rng, raw) for _ in range(nmem))
+            body, tag = corrupt(rng, body)
         if raw and body and body[0] & 0xF == 8:
             continue
         ref, _state = safe_ref(real_ref_decode, enc, body)
@@ -1150,7 +1184,7 @@ def suite_laws(ctx, n):
         out = bytearray()
         err = False
         calls = []
-        pieces = segments(rng, body)
+        pieces = [body] if exact and rng.random() < 0.7 else segments(rng, body)
         i = 0
         steps = 0
         while (i < len(pieces) or h.data_available) and steps < 100000:
@@ -1160,7 +1194,7 @@ def suite_laws(ctx, n):
             else:
                 d = pieces[i]
                 i += 1
-            m = rng.choice([1, 2, 16, 100, 4096, 65536])
+            m = lim if exact else rng.choice([1, 2, 16, 100, 4096, 65536])
             calls.append((len(d), m))
             try:
                 o = h.decompress_sync(d, max_length=m)
